@@ -13,6 +13,7 @@ package main
 // documented rule instance and the verdict the rule demands.
 
 import (
+	"fmt"
 	"go/types"
 	"strings"
 )
@@ -80,7 +81,7 @@ func cMessage(name string, fields ...*cField) *VStruct {
 		fl.Elems = append(fl.Elems, f.val())
 	}
 	desc := cstruct("MessageDesc", map[string]Val{"Name()": constStr(name), "FullName()": constStr("pkg." + name), "IsMapEntry()": VBool{}})
-	return cstruct("Message", map[string]Val{"Fields": fl, "Oneofs": VList{Key: "oneofs", Elems: []Val{}}, "Messages": VList{Key: "msgs", Elems: []Val{}}, "Desc": desc,
+	return cstruct("Message", map[string]Val{"Fields": fl, "Oneofs": VList{Key: "oneofs", Elems: []Val{}}, "Messages": VList{Key: "msgs", Elems: []Val{}}, "Enums": VList{Key: "enums", Elems: []Val{}}, "Desc": desc,
 		"GoIdent": cstruct("GoIdent", map[string]Val{"GoName": constStr(name)}), "Comments": cstruct("CommentSet", map[string]Val{"Leading": constStr("")})})
 }
 
@@ -190,3 +191,86 @@ func (c *Ctx) cdescHook(fn *types.Func, recv Val, args []Val) (Val, bool) {
 	return nil, false
 }
 
+// ---- enums, nested declarations, files
+
+type cEnumValue struct{ Name, Custom string }
+
+// cEnum: a protogen.Enum value; goPrefix is the Go name prefix of its values ("Priority" → Priority_LOW).
+func cEnum(name, fullName string, vals ...cEnumValue) *VStruct {
+	vl := VList{Key: "evals", Elems: []Val{}}
+	for i, v := range vals {
+		f := map[string]Val{
+			"Desc":    cstruct("EnumValueDesc", map[string]Val{"Name()": constStr(v.Name), "Number()": VInt{N: int64(i), Label: fmt.Sprint(i)}, "Options()": VNil{}}),
+			"GoIdent": cstruct("GoIdent", map[string]Val{"GoName": constStr(name + "_" + v.Name)}),
+		}
+		f["@GetEnumValueMapping"] = constStr(v.Custom)
+		vl.Elems = append(vl.Elems, cstruct("EnumValue", f))
+	}
+	return cstruct("Enum", map[string]Val{"Values": vl, "GoIdent": cstruct("GoIdent", map[string]Val{"GoName": constStr(name)}),
+		"Desc":     cstruct("EnumDesc", map[string]Val{"Name()": constStr(name[strings.LastIndex(name, "_")+1:]), "FullName()": constStr(fullName)}),
+		"Comments": cstruct("CommentSet", map[string]Val{"Leading": constStr("")})})
+}
+
+// nest puts children into parent.Messages / parent.Enums.
+func nest(parent *VStruct, msgs []*VStruct, enums []*VStruct) *VStruct {
+	ml := parent.Fields["Messages"].(VList)
+	for _, m := range msgs {
+		ml.Elems = append(ml.Elems, m)
+	}
+	parent.Fields["Messages"] = ml
+	el, _ := parent.Fields["Enums"].(VList)
+	if el.Elems == nil {
+		el = VList{Key: "enums", Elems: []Val{}}
+	}
+	for _, e := range enums {
+		el.Elems = append(el.Elems, e)
+	}
+	parent.Fields["Enums"] = el
+	return parent
+}
+
+func cFile(msgs []*VStruct, enums []*VStruct, services []*VStruct) *VStruct {
+	ml, el, sl := VList{Key: "m", Elems: []Val{}}, VList{Key: "e", Elems: []Val{}}, VList{Key: "s", Elems: []Val{}}
+	for _, m := range msgs {
+		ml.Elems = append(ml.Elems, m)
+	}
+	for _, e := range enums {
+		el.Elems = append(el.Elems, e)
+	}
+	for _, s := range services {
+		sl.Elems = append(sl.Elems, s)
+	}
+	return cstruct("File", map[string]Val{"Messages": ml, "Services": sl, "Enums": el,
+		"GoPackageName": constStr("pkg"), "GeneratedFilenamePrefix": constStr("x"), "GoImportPath": constStr("x/pkg"), "Desc": cstruct("FileDesc", map[string]Val{"Path()": constStr("x.proto")})})
+}
+
+// runUnitConcrete reconstructs the unit (pkg, suffix) for a concrete scenario file.
+// problem != "" when the walker left decisions open or aborted.
+func (c *Ctx) runUnitConcrete(pkg, suffix string, file *VStruct) (units []*Unit, pos string, problem string) {
+	ri := c.Root(pkg, suffix)
+	if ri == nil {
+		return nil, "", "unit root not found"
+	}
+	pos = c.P.Pos(c.P.Decls[ri.Fn].Pos())
+	prevC, prevE := c.W.Concrete, c.W.ExternStructs
+	c.W.Concrete, c.W.ExternStructs = true, true
+	defer func() { c.W.Concrete, c.W.ExternStructs = prevC, prevE }()
+	run := c.W.NewRun(map[string]int{}, false)
+	run.InlineAll, run.FollowSlices = true, true
+	run.CallHook = c.xHookT
+	run.StartArgs(ri.Fn, map[string]Val{"file": file})
+	if len(run.Used) > 0 || run.Aborted != "" {
+		return run.Units, pos, fmt.Sprintf("open decisions %v, aborted %q", usedKeys(run), run.Aborted)
+	}
+	return run.Units, pos, ""
+}
+
+func unitLines(units []*Unit) []string {
+	var out []string
+	for _, u := range units {
+		for _, l := range u.Lines {
+			out = append(out, lineText(l.Segs))
+		}
+	}
+	return out
+}
